@@ -255,15 +255,23 @@ func solve(query string, dir string, name string, timeoutS int, thorough bool, p
 		// phase 1: z3 5.1.0 alone with a short limit (decides most obligations)
 		return runOne(ctx, solvers[0], file, min(timeoutS, 5))
 	}
-	// phase 2: race all installed solvers
-	ch := make(chan SolverResult, len(solvers))
+	// phase 2: race all installed solvers, plus z3 on the sliced variant of the query
+	ch := make(chan SolverResult, len(solvers)+1)
 	for _, sp := range solvers {
 		sp := sp
 		go func() { ch <- runOne(ctx, sp, file, timeoutS) }()
 	}
+	go func() {
+		r := runOne(ctx, solvers[0], filepath.Join(dir, name+".sl.smt2"), timeoutS)
+		r.Backend += "(sliced)"
+		if r.Status != "unsat" {
+			r.Status = "unknown"
+		}
+		ch <- r
+	}()
 	var definite []SolverResult
 	var last SolverResult
-	for range solvers {
+	for i := 0; i < len(solvers)+1; i++ {
 		res := <-ch
 		last = res
 		if res.Status == "unsat" || res.Status == "sat" {
